@@ -89,6 +89,19 @@ def build_function_reference(modules):
     return {m: {q: shape(f) for q, f in functions_of(t)} for m, t in modules.items()}
 
 
+def build_module_names_reference(modules):
+    """module-level names bound by assignment in the reference modules (to tell NEW constants from old ones)"""
+    out = {}
+    for m, t in modules.items():
+        names = set()
+        for st in t.body:
+            for n in ast.walk(st) if isinstance(st, (ast.Assign, ast.AnnAssign, ast.AugAssign)) else []:
+                if isinstance(n, ast.Name) and isinstance(n.ctx, ast.Store):
+                    names.add(n.id)
+        out[m] = sorted(names) or ['__none__']
+    return out
+
+
 # ------------------------------------------------------------------------------------------------ C: renamed functions
 def _rename_functions_back(tree, ref_funcs, done):
     present = dict(functions_of(tree))
@@ -113,6 +126,52 @@ def _rename_functions_back(tree, ref_funcs, done):
                 n.attr = old
         extra.remove(cands[0])
         done.append((m, new, '<function renamed back to %s>' % old))
+
+
+# ------------------------------------------------------------------------------------------------ D: new module-level constants
+class _Subst(ast.NodeTransformer):
+    def __init__(self, name, value):
+        self.name, self.value, self.n = name, value, 0
+
+    def visit_Name(self, node):
+        if node.id == self.name and isinstance(node.ctx, ast.Load):
+            self.n += 1
+            return ast.copy_location(copy.deepcopy(self.value), node)
+        return node
+
+
+def _is_literal(e):
+    if isinstance(e, ast.Constant):
+        return True
+    if isinstance(e, (ast.Tuple, ast.List, ast.Set)):
+        return all(_is_literal(x) for x in e.elts)
+    if isinstance(e, ast.UnaryOp) and isinstance(e.op, ast.USub) and isinstance(e.operand, ast.Constant):
+        return True
+    return False
+
+
+def _inline_new_constants(tree, ref_consts, done):
+    """a module-level name the reference module does not have, bound once to a literal (tuple of strings, number, string) and never
+    re-bound or mutated: its uses read as the literal again ("magic value moved into a constant" undone)"""
+    cands = {}
+    for st in tree.body:
+        if isinstance(st, ast.Assign) and len(st.targets) == 1 and isinstance(st.targets[0], ast.Name) and _is_literal(st.value):
+            nm = st.targets[0].id
+            if nm not in ref_consts and not nm.startswith('__'):
+                cands[nm] = st
+    for nm, st in list(cands.items()):
+        stores = [n for n in ast.walk(tree) if isinstance(n, ast.Name) and n.id == nm and isinstance(n.ctx, (ast.Store, ast.Del))]
+        glob = [n for n in ast.walk(tree) if isinstance(n, ast.Global) and nm in n.names]
+        attr_use = [n for n in ast.walk(tree) if isinstance(n, ast.Attribute) and isinstance(n.value, ast.Name) and n.value.id == nm]
+        if len(stores) != 1 or glob or attr_use or isinstance(st.value, (ast.List, ast.Set)):
+            continue
+        sub = _Subst(nm, st.value)
+        for i, t in enumerate(tree.body):
+            if t is not st:
+                tree.body[i] = sub.visit(t)
+        if sub.n:
+            tree.body.remove(st)
+            done.append(('<module>', nm, '<new module constant substituted at its %d use(s)>' % sub.n))
 
 
 # ------------------------------------------------------------------------------------------------ B: extracted helpers
@@ -181,9 +240,6 @@ def _inline_new_helpers(tree, ref_funcs, done):
     # candidates: new module-level functions (called as `name(...)`) and new methods (called as `self.name(...)` inside their class)
     cands = [(n, None, tree.body) for n in tree.body if isinstance(n, ast.FunctionDef)]
     for cls in [n for n in ast.walk(tree) if isinstance(n, ast.ClassDef)]:
-        cq = None
-        for q, f in functions_of(tree):
-            pass
         cands += [(n, cls, cls.body) for n in cls.body if isinstance(n, ast.FunctionDef)]
     quals = {id(f): q for q, f in functions_of(tree)}
     for helper, cls, home in cands:
@@ -210,6 +266,49 @@ def _inline_new_helpers(tree, ref_funcs, done):
         if len(refs) != 1:
             continue
         # the one reference must be the callee of a call that is a whole statement value inside another function
+        # B0: a helper whose body is one `return <expr>` is inlined as an expression, whatever the context of the call
+        #     (comprehension condition, operand of `and`, argument): parameters are substituted by the argument expressions
+        body0 = _strip_doc(helper.body)
+        callers = [c for c in ast.walk(tree) if isinstance(c, ast.Call) and c.func is refs[0]]
+        if len(body0) == 1 and isinstance(body0[0], ast.Return) and body0[0].value is not None and len(callers) == 1:
+            call = callers[0]
+            params0 = [x.arg for x in a.args][(1 if cls is not None else 0):]
+            if len(call.args) + len(call.keywords) == len(params0) and not any(k.arg is None for k in call.keywords) and \
+                    not any(isinstance(x, ast.Starred) for x in call.args):
+                bind0 = dict(zip(params0, call.args))
+                okb = True
+                for k in call.keywords:
+                    if k.arg not in params0 or k.arg in bind0:
+                        okb = False
+                    bind0[k.arg] = k.value
+                # every parameter is used at most once, or its argument is a plain name/attribute chain/constant (no re-evaluation issue)
+                expr = copy.deepcopy(body0[0].value)
+                uses0 = {}
+                for n in ast.walk(expr):
+                    if isinstance(n, ast.Name) and n.id in bind0:
+                        uses0[n.id] = uses0.get(n.id, 0) + 1
+                simple = lambda e: all(isinstance(x, (ast.Name, ast.Attribute, ast.Constant, ast.Load)) for x in ast.walk(e))
+                if okb and set(bind0) == set(params0) and all(uses0.get(p_, 0) <= 1 or simple(bind0[p_]) for p_ in params0) and \
+                        not any(isinstance(n, (ast.Lambda, ast.ListComp, ast.SetComp, ast.DictComp, ast.GeneratorExp)) and
+                                any(isinstance(x, ast.Name) and x.id in bind0 and isinstance(x.ctx, ast.Store) for x in ast.walk(n)) for n in ast.walk(expr)):
+                    class _P(ast.NodeTransformer):
+                        def visit_Name(self, node):
+                            if isinstance(node.ctx, ast.Load) and node.id in bind0:
+                                return ast.copy_location(copy.deepcopy(bind0[node.id]), node)
+                            return node
+                    expr = _P().visit(expr)
+
+                    class _C(ast.NodeTransformer):
+                        def visit_Call(self, node):
+                            if node is call:
+                                return ast.copy_location(expr, node)
+                            return self.generic_visit(node)
+                    for i_, t_ in enumerate(tree.body):
+                        tree.body[i_] = _C().visit(t_)
+                    ast.fix_missing_locations(tree)
+                    home.remove(helper)
+                    done.append(('<expr>', helper.name, '<new single-expression helper inlined at its only call>'))
+                    continue
         site = None
         for q, f in functions_of(tree):
             if f is helper:
@@ -227,6 +326,26 @@ def _inline_new_helpers(tree, ref_funcs, done):
                             call = s.value
                         if call is not None and call.func is refs[0]:
                             site = (f, lst, i, s, call)
+                        if isinstance(s, ast.If):
+                            t = s.test
+                            while isinstance(t, ast.UnaryOp) and isinstance(t.op, ast.Not):
+                                t = t.operand
+                            if isinstance(t, ast.Call) and t.func is refs[0]:
+                                # `if helper(...):` - the call is evaluated first: hoist it into a fresh local and inline that assignment
+                                tmp = '_%s__val' % helper.name.lstrip('_')
+                                asg = ast.Assign(targets=[ast.Name(id=tmp, ctx=ast.Store())], value=t)
+                                ast.copy_location(asg, s)
+                                ast.fix_missing_locations(asg)
+
+                                class _R(ast.NodeTransformer):
+                                    def visit_Call(self, node, t=t, tmp=tmp):
+                                        if node is t:
+                                            return ast.copy_location(ast.Name(id=tmp, ctx=ast.Load()), node)
+                                        return self.generic_visit(node)
+                                s.test = _R().visit(s.test)
+                                lst.insert(i, asg)
+                                site = (f, lst, i, asg, t)
+                                break
                 if isinstance(holder, ast.Try):
                     for h in holder.handlers:
                         for i, s in enumerate(h.body):
@@ -436,6 +555,9 @@ def canonicalise_functions(mname, tree, ref):
     if ref_funcs is None:
         return done
     _rename_functions_back(tree, ref_funcs, done)
+    ref_consts = set((ref.get('__module_names__') or {}).get(mname) or ())
+    if ref_consts:
+        _inline_new_constants(tree, ref_consts, done)
     _inline_new_helpers(tree, ref_funcs, done)
     return done
 
